@@ -1771,7 +1771,7 @@ func checkGetRemotesComplete(c *Ctx) {
 				bad+": the removal of an entity does not visit that remote, its tracking refs stay and a merge without a new fetch resurrects the entity")
 		}
 	}
-	c.Check(n == 1, "R14.6", "GoGitRepo.GetRemotes:one-entry-site", w.FnPos(fn), "one map insertion", fmt.Sprintf("%d map insertions found (one expected)", n))
+	c.Check(n >= 1, "R14.6", "GoGitRepo.GetRemotes:entry-site-found", w.FnPos(fn), fmt.Sprintf("%d map insertion(s)", n), "no insertion into the result map found")
 
 	// no push path fetches
 	isFetch := func(name string) bool {
